@@ -347,7 +347,7 @@ impl Prop for C12 {
 
     fn profiles(tier: Tier) -> Vec<Profile> {
         match tier {
-            Tier::Quick => vec![prof("mutated", 120_000)],
+            Tier::Quick => vec![prof("mutated", 240_000)],
             Tier::Thorough => vec![prof("mutated", 5_000_000)],
         }
     }
